@@ -429,3 +429,12 @@ Definition apply_upd (E : env) (u : upd) : env :=
       | None => E1
       end
   end.
+
+(* ---- the type checks RuleExpression applies to the result of Check (rule_expression.go) -- *)
+(* checkTemplateEvaluatedType: object, array and null values must not be evaluated in ${{ }} *)
+Definition template_ok (t : ty) : bool :=
+  match t with TObj _ _ | TArr _ _ | TNull => false | _ => true end.
+(* checkIfCondition: the condition must be assignable to bool *)
+Definition if_cond_ok (t : ty) : bool := assignable TBool t.
+(* checkWorkflowCall input / typed input: declared.Assignable(actual) *)
+Definition typed_input_ok (declared actual : ty) : bool := assignable declared actual.
